@@ -147,6 +147,7 @@ func (e *Executor) RunTask(ctx context.Context, call *Call) error {
 		}
 	}
 
+	vhook("acquire", t)
 	release := e.acquireConcurrencyLimit()
 	defer release()
 
@@ -374,6 +375,7 @@ func (e *Executor) startExecution(ctx context.Context, t *ast.Task, execute func
 		return execute(ctx)
 	}
 
+	vhook("dedup", t)
 	e.executionHashesMutex.Lock()
 
 	if otherExecutionCtx, ok := e.executionHashes[h]; ok {
